@@ -44,12 +44,16 @@ pub fn name_class(n: &str) -> &'static str {
         "reserved"
     } else if THEORY_NAMES.contains(&n) {
         "theory"
+    } else if n.starts_with('.') || n.starts_with('@') {
+        "solver-reserved"
     } else if NONASCII_NAMES.contains(&n) {
         "nonascii"
     } else if QUOTED_NAMES.contains(&n) {
         "needs-quoting"
     } else if SIMPLE_NAMES.contains(&n) {
         "simple"
+    } else if n.chars().count() <= 2 && n.chars().all(|c| (c as u32) >= 32 && (c as u32) < 127) {
+        "ascii-char"
     } else {
         "derived"
     }
@@ -86,6 +90,16 @@ impl<'a> Gen<'a> {
         if self.rng.chance(2, 5) { 1 } else { self.rng.range(2, self.max_iw as u64) as WidthInt }
     }
     fn fresh_name(&mut self) -> String {
+        // every printable ASCII character alone and in second position (character classification of the quoting rule)
+        if !self.plain_names && self.rng.chance(1, 8) {
+            let c = (32 + self.rng.below(95)) as u8 as char;
+            if c != '|' && c != '\\' {
+                let cand = if self.rng.chance(1, 2) { format!("{c}") } else { format!("v{c}") };
+                if !self.used.iter().any(|(n, _)| *n == cand) {
+                    return cand;
+                }
+            }
+        }
         let base: &str = if self.plain_names {
             *self.rng.pick(SIMPLE_NAMES)
         } else {
@@ -344,6 +358,67 @@ impl<'a> Gen<'a> {
         } else {
             let w = self.width();
             if depth == 0 { self.leaf(w) } else { self.bv_op(w, depth - 1) }
+        }
+    }
+}
+
+fn op_tag(e: &Expr) -> &'static str {
+    match e {
+        Expr::BVSymbol { .. } => "sym",
+        Expr::BVLiteral(_) => "lit",
+        Expr::BVZeroExt { .. } => "zext",
+        Expr::BVSignExt { .. } => "sext",
+        Expr::BVSlice { .. } => "slice",
+        Expr::BVNot(..) => "not",
+        Expr::BVNegate(..) => "neg",
+        Expr::BVEqual(..) => "eq",
+        Expr::BVImplies(..) => "implies",
+        Expr::BVGreater(..) => "ugt",
+        Expr::BVGreaterSigned(..) => "sgt",
+        Expr::BVGreaterEqual(..) => "uge",
+        Expr::BVGreaterEqualSigned(..) => "sge",
+        Expr::BVConcat(..) => "concat",
+        Expr::BVAnd(..) => "and",
+        Expr::BVOr(..) => "or",
+        Expr::BVXor(..) => "xor",
+        Expr::BVShiftLeft(..) => "shl",
+        Expr::BVArithmeticShiftRight(..) => "ashr",
+        Expr::BVShiftRight(..) => "lshr",
+        Expr::BVAdd(..) => "add",
+        Expr::BVMul(..) => "mul",
+        Expr::BVSignedDiv(..) => "sdiv",
+        Expr::BVUnsignedDiv(..) => "udiv",
+        Expr::BVSignedMod(..) => "smod",
+        Expr::BVSignedRem(..) => "srem",
+        Expr::BVUnsignedRem(..) => "urem",
+        Expr::BVSub(..) => "sub",
+        Expr::BVArrayRead { .. } => "read",
+        Expr::BVIte { .. } => "ite",
+        Expr::ArraySymbol { .. } => "asym",
+        Expr::ArrayConstant { .. } => "aconst",
+        Expr::ArrayEqual(..) => "aeq",
+        Expr::ArrayStore { .. } => "store",
+        Expr::ArrayIte { .. } => "aite",
+    }
+}
+
+/// histogram "operator.position:kind-of-operand" over the distinct nodes of the expression
+pub fn position_hist(ctx: &Context, root: ExprRef, stats: &mut Stats) {
+    for n in crate::exprgen::collect_nodes(ctx, root) {
+        let mut cs = vec![];
+        ctx[n].collect_children(&mut cs);
+        for (k, c) in cs.iter().enumerate() {
+            let kind = match c.get_type(ctx) {
+                Type::BV(1) => "1bit",
+                Type::BV(_) => "wide",
+                Type::Array(_) => "array",
+            };
+            let leaf = match &ctx[*c] {
+                Expr::BVSymbol { .. } | Expr::ArraySymbol { .. } => "sym",
+                Expr::BVLiteral(_) => "lit",
+                _ => "op",
+            };
+            stats.bump("operand", &format!("{}.{}:{}:{}", op_tag(&ctx[n]), k, kind, leaf));
         }
     }
 }
@@ -764,6 +839,7 @@ fn run_case(id: &str, ctx: &Context, case: &Case, stats: &mut Stats, batch: &mut
                 Type::Array(a) => stats.bump("root_type", &format!("arr{}x{}", a.index_width, a.data_width)),
             }
             stats.bump("tree_size", &format!("{}", (tree_size(ctx, *root, 400) / 10) * 10));
+            position_hist(ctx, *root, stats);
             let decl_txt: String = syms.iter().map(|s| format!(" {}", dump_sym_decl(ctx, *s))).collect();
             let (text, panicloc) = match write_cmd(ctx, &SmtCommand::GetValue(*root)) {
                 Ok(t) => (t, String::new()),
@@ -788,7 +864,7 @@ fn run_case(id: &str, ctx: &Context, case: &Case, stats: &mut Stats, batch: &mut
             let idx_txt: String = indices.iter().map(|i| format!(" {}", bv_tok(i))).collect();
             let mut solver_txt = String::new();
             // only cases whose names SMT-LIB can express (and that are not reserved words) go to the solvers
-            let solver_ok = classes.iter().all(|c| matches!(*c, "simple" | "needs-quoting" | "nonascii" | "derived"));
+            let solver_ok = classes.iter().all(|c| matches!(*c, "simple" | "needs-quoting" | "nonascii" | "derived" | "ascii-char"));
             if !batch.is_empty() {
                 if solver_ok && !envs.is_empty() && text.starts_with("(get-value (") {
                     let term = text.trim_end().strip_prefix("(get-value (").unwrap().strip_suffix("))").unwrap_or("");
@@ -798,10 +874,17 @@ fn run_case(id: &str, ctx: &Context, case: &Case, stats: &mut Stats, batch: &mut
                     let nonlit_aconst = crate::exprgen::collect_nodes(ctx, *root)
                         .iter()
                         .any(|n| matches!(&ctx[*n], Expr::ArrayConstant { e, .. } if !matches!(ctx[*e], Expr::BVLiteral(_))));
+                    let has_aeq = crate::exprgen::collect_nodes(ctx, *root).iter().any(|n| matches!(&ctx[*n], Expr::ArrayEqual(..)));
                     if let Some(script) = solver_script(ctx, &decls, term, root_ty, &envs[0], &few) {
                         for (name, b) in batch.iter_mut() {
                             if name == "cvc5" && nonlit_aconst {
                                 stats.inc("cvc5_skipped_nonliteral_const_array");
+                                continue;
+                            }
+                            // z3 4.8.12's model evaluator answers some extensional array equalities with `false` although the
+                            // negation is unsatisfiable (and with quantified terms): its get-value is no evidence there
+                            if name == "z3" && has_aeq {
+                                stats.inc("z3_skipped_array_equality");
                                 continue;
                             }
                             b.add(id, &script);
@@ -888,7 +971,7 @@ pub fn run(args: &Args) {
             if let Some(m) = args.get("max-iw") {
                 g.max_iw = m.parse().unwrap();
             }
-            let depth = 1 + g.rng.below(4) as u32;
+            let depth = 1 + g.rng.below(5) as u32;
             let case = if g.rng.chance(1, 4) && args.get("only").map(|v| v != "expr").unwrap_or(true) || args.get("only") == Some("cmd") {
                 Case::Cmd(gen_cmd(&mut g, &mut stats))
             } else {
@@ -923,8 +1006,16 @@ pub fn run(args: &Args) {
                     if !b.ids.contains(&id) {
                         continue;
                     }
-                    let o = m.get(&id).cloned().unwrap_or_else(|| "(error \"no output for this case\")".to_string());
-                    stats.bump("solver_runs", s);
+                    let o = match m.get(&id) {
+                        Some(o) => {
+                            stats.bump("solver_runs", s);
+                            o.clone()
+                        }
+                        None => {
+                            stats.bump("solver_no_output", s);
+                            "(error \"no output for this case\")".to_string()
+                        }
+                    };
                     txt.push_str(&format!(" ({} {})", quote(s), quote(&o)));
                 }
                 *line = line.replace(&format!("@@SOLVER {id}@@"), &txt);
